@@ -1,7 +1,7 @@
 //! Generates the frozen reference table for C06. Built WITHOUT the hooks feature against a worktree of the reference
 //! release (v0.6.2, d731376) - see golden/README.md. Never run by a check.
 //!
-//!   golden_gen <out-dir> [seed]
+//!   golden_gen <out-dir> [seed] [scale]
 use a5mon::gen::{self, Frame};
 use a5mon::geom::*;
 use a5mon::model::*;
@@ -17,6 +17,9 @@ fn main() {
     let args: Vec<String> = std::env::args().collect();
     let out = args.get(1).expect("usage: golden_gen <out-dir> [seed]");
     let seed: u64 = args.get(2).and_then(|s| s.parse().ok()).unwrap_or(20260101);
+    // scale > 1 multiplies the number of random curve positions per quintant and of uniform / hostile points per resolution
+    // (used by the thorough tier of C06, which records a fresh, seed-dependent table from the reference release at run time)
+    let scale: u64 = args.get(3).and_then(|s| s.parse().ok()).unwrap_or(1).max(1);
     silence_panics();
     let fr = Frame::new();
     let mut rng = Rng::stream(seed, "golden", 0);
@@ -96,7 +99,7 @@ fn main() {
                 for pat in ["all1", "all2", "alt", "single"] {
                     positions.push(gen::s_pattern(&mut rng, digits, pat));
                 }
-                for _ in 0..3 {
+                for _ in 0..(3 * scale) {
                     positions.push(gen::s_pattern(&mut rng, digits, "random"));
                 }
                 positions.sort_unstable();
@@ -115,8 +118,8 @@ fn main() {
             }
         }
         // uniform and hostile classes
-        for i in 0..700 {
-            let class = if i < 350 { "uniform" } else { *rng.pick(&gen::POINT_CLASSES) };
+        for i in 0..(700 * scale) {
+            let class = if i % 2 == 0 { "uniform" } else { *rng.pick(&gen::POINT_CLASSES) };
             let (lon, lat) = gen::point(&mut rng, &fr, class);
             let lon = if i % 50 == 7 { gen::wrap(&mut rng, lon) } else { lon };
             add_lookup(&mut lookups, lon, lat, res, class, &mut nl, &mut rej_l);
